@@ -1,6 +1,5 @@
 //! C17 - base-38 packing at chunk level, mounted into rs-matter/src/utils/codec/base38.rs.
-//! (The public `encode`/`decode` iterator chains over the same inputs do not finish in CBMC;
-//! they only concatenate these chunk kernels.)
+//! plus the public `decode` iterator chain on strings of <= 6 characters.
 #![allow(unused_imports, dead_code)]
 use super::*;
 use crate::verif_support::*;
@@ -40,7 +39,7 @@ fn c17_q_base38_chunk_roundtrip() {
         vassert!(m < 3, "ROLE:base38-chunk-length");
         match r {
             Ok(v) => dec[m] = v,
-            Err(_) => vassert!(false, "ROLE:base38-own-encoding-decodes"),
+            Err(_) => vassert!(false, "ROLE:NEVER:base38-own-encoding-decodes"),
         }
         m += 1;
     }
@@ -81,11 +80,61 @@ fn c17_q_base38_chunk_decode_safe() {
         vassert!(m <= 3, "ROLE:base38-chunk-yields-at-most-3-bytes");
     }
     if n == 1 || n == 3 {
-        vassert!(m == 0 || errs == m, "ROLE:base38-illegal-chunk-length-refused");
+        vassert!(errs >= 1, "ROLE:base38-illegal-chunk-length-refused");
     } else if !legal {
         vcover!(true);
-        vassert!(errs == m && (m > 0 || n == 0), "ROLE:base38-illegal-character-refused");
+        vassert!(errs >= 1, "ROLE:base38-illegal-character-refused");
     } else {
         vassert!(errs == 0, "ROLE:base38-legal-chunk-decodes");
+        vassert!((n == 0 && m == 0) || (n == 2 && m == 1) || (n == 4 && m == 2) || (n == 5 && m == 3), "ROLE:base38-chunk-length");
+    }
+}
+
+/// The public decoder on every ASCII string of <= 6 characters (one full chunk + a tail, hostile
+/// characters included): an error is reported iff the string has an illegal character or an
+/// illegal tail length (the documented contract of `decode` / `QrPayload::parse`); otherwise
+/// the number of bytes is the one the chunking prescribes.
+#[cfg_attr(kani, kani::proof)]
+#[cfg_attr(kani, kani::unwind(8))]
+#[cfg_attr(not(kani), test)]
+fn c17_q_base38_decode_refuses_invalid_6() {
+    let b: [u8; 6] = any_bytes::<6>();
+    let n = any_usize();
+    assume(n <= 6);
+    let mut legal = true;
+    let mut i = 0;
+    while i < 6 {
+        assume(b[i] < 0x80);
+        if i < n {
+            let c = b[i];
+            legal &= (c >= b'0' && c <= b'9') || (c >= b'A' && c <= b'Z') || c == b'-' || c == b'.';
+        }
+        i += 1;
+    }
+    // SAFETY: all bytes are ASCII
+    let s = unsafe { core::str::from_utf8_unchecked(&b[..n]) };
+    let mut oks = 0;
+    let mut errs = 0;
+    let mut after_err = 0;
+    for r in decode(s) {
+        if errs > 0 {
+            after_err += 1;
+        }
+        if r.is_err() {
+            errs += 1;
+        } else {
+            oks += 1;
+        }
+        vassert!(oks + errs <= 5, "ROLE:base38-decode-terminates");
+    }
+    let tail = n % 5;
+    let well_formed = legal && tail != 1 && tail != 3;
+    vcover!(well_formed && n == 6);
+    vcover!(!legal && n == 6);
+    vassert!((errs == 0) == well_formed, "ROLE:base38-decode-errors-exactly-on-malformed-input");
+    vassert!(errs <= 1 && after_err == 0, "ROLE:base38-decode-stops-at-first-error");
+    if well_formed {
+        let want = (n / 5) * 3 + match tail { 0 => 0, 2 => 1, _ => 2 };
+        vassert!(oks == want, "ROLE:base38-decoded-length");
     }
 }
